@@ -97,7 +97,7 @@ fn gen_case(rng: &mut Rng) -> Case {
         sc.finish = Finish::Drop;
     }
     let mut c = Case::of(sc);
-    c.mode = format!("v{}{}", u8::from(rng.bool()), u8::from(rng.bool()));
+    c.mode = format!("v{}{}{}", u8::from(rng.bool()), u8::from(rng.bool()), u8::from(rng.chance(1, 3)));
     c
 }
 
@@ -207,7 +207,11 @@ impl Property for C17 {
             return Ok(Ok(()));
         }
         let sc = &case.sc;
-        let v = CVariant { builder_free_early: case.mode.as_bytes().get(1) == Some(&b'1'), strings_late: case.mode.as_bytes().get(2) == Some(&b'1') };
+        let v = CVariant {
+            builder_free_early: case.mode.as_bytes().get(1) == Some(&b'1'),
+            strings_late: case.mode.as_bytes().get(2) == Some(&b'1'),
+            ignore_setter_errors: case.mode.as_bytes().get(3) == Some(&b'1'),
+        };
         let rust = driver::run(sc);
         let c = capi::run(sc, v);
         st.evaluations += 2;
@@ -252,6 +256,21 @@ impl Property for C17 {
         }
         if let Some(p) = &c.codes_problem {
             return Ok(Err(Fail::new("C17.codes", p.clone())));
+        }
+        // the last-error string of a failing write()/end() is that call's own error
+        if let (Some(text), Outcome::Err(k, _)) = (c.error_texts.last(), &c.history.outcome) {
+            let ok = match k {
+                ErrKind::Mem => text == "The memory limit has been exceeded.",
+                ErrKind::Ambiguity => text.starts_with("The parser has encountered a text content tag"),
+                ErrKind::Handler(_) => {
+                    // Stop from a callback, or a streaming handler failure
+                    text == "The rewriter has been stopped." || text.starts_with("write_all_callback reported error")
+                }
+            };
+            if !ok {
+                return Ok(Err(Fail::new("C17.codes", format!("write()/end() failed and lol_html_take_last_error() returned {text:?}, which is not this failure's message"))));
+            }
+            st.bump("c17.error_texts_checked");
         }
         if c.streams_created != c.streams_dropped {
             return Ok(Err(Fail::new("C17.drop_once", format!("{} streaming handlers handed over, drop_callback ran {} times", c.streams_created, c.streams_dropped))));
